@@ -165,6 +165,10 @@ func run(c fw.Case, tier string, rec *fw.Recorder) {
 		runRetry(c, p, rec)
 		return
 	}
+	if p.Kind == "receipts" {
+		runReceipts(c, p, rec)
+		return
+	}
 	Drive(c, p, rec, Hooks{})
 }
 
@@ -796,6 +800,10 @@ func cases(tier string, seed int64) []fw.Case {
 		p := params{Stakes: stakes[i%len(stakes)], NChains: 1, Focus: "jobs", Hostile: 30, Kind: "purge"}
 		cs = append(cs, fw.MkCase(fmt.Sprintf("purge-%02d", i), seed*32452843+int64(i), p))
 	}
+	for i := 0; i < np; i++ {
+		p := params{Stakes: stakes[i%len(stakes)], NChains: 1, Focus: "jobs", Hostile: 0, Kind: "receipts"}
+		cs = append(cs, fw.MkCase(fmt.Sprintf("receipts-%02d", i), seed*86028121+int64(i), p))
+	}
 	for i := 0; i < 2*np; i++ {
 		p := params{Stakes: stakes[i%len(stakes)], NChains: 1, Focus: "jobs", Hostile: 0, Kind: "retry", Blocks: 10}
 		cs = append(cs, fw.MkCase(fmt.Sprintf("retry-%02d", i), seed*49979687+int64(i), p))
@@ -807,7 +815,7 @@ func init() {
 	fw.Register(&fw.Prop{
 		ID:    "C09",
 		Level: "exploration",
-		Rule: "seeded omnibus ABCI histories of the real app (bridge transfers, jobs, licences; pigeons signing, estimating, relaying, attesting, claiming, confirming; governance-set fees, taxes, weights, limits, nonce overrides) in which every sender-controlled value is drawn from hostile generators (0, 1, 2^32, 2^63, 2^64-1; negative/huge/malformed decimals; nil / empty-type / garbage / wrong-type / short proofs; 0..200 kB payloads; malformed versions, addresses, balances) and stays in the state only if the chain accepted the tx; oracle = recover()+error check around every FinalizeBlock, plus BeginBlock/EndBlock of every Paloma module run on throw-away forks at the next heights = 0 mod 10/50/300/303 and at 10 000, 15 150, 30 300, 303 000; plus scripted long-idle histories (purge-NN: early honest deliveries, then a flood of > 1000 job executions nobody relays, then one late delivery, so the relay-metrics purge runs over validators whose whole history lies outside the scoring window) and scripted retry histories (retry-NN: a minority of validators advertises the MEV trait, jobs with and without the MEV requirement are executed at varying block times, all validators attest the relay failed, the end-blocker re-enqueues the call up to the retry limit). " +
+		Rule: "seeded omnibus ABCI histories of the real app (bridge transfers, jobs, licences; pigeons signing, estimating, relaying, attesting, claiming, confirming; governance-set fees, taxes, weights, limits, nonce overrides) in which every sender-controlled value is drawn from hostile generators (0, 1, 2^32, 2^63, 2^64-1; negative/huge/malformed decimals; nil / empty-type / garbage / wrong-type / short proofs; 0..200 kB payloads; malformed versions, addresses, balances) and stays in the state only if the chain accepted the tx; oracle = recover()+error check around every FinalizeBlock, plus BeginBlock/EndBlock of every Paloma module run on throw-away forks at the next heights = 0 mod 10/50/300/303 and at 10 000, 15 150, 30 300, 303 000; plus scripted long-idle histories (purge-NN: early honest deliveries, then a flood of > 1000 job executions nobody relays, then one late delivery, so the relay-metrics purge runs over validators whose whole history lies outside the scoring window) and scripted retry histories (retry-NN: a minority of validators advertises the MEV trait, jobs with and without the MEV requirement are executed at varying block times, all validators attest the relay failed, the end-blocker re-enqueues the call up to the retry limit) and scripted receipt histories (receipts-NN: user-contract deployments and logic calls delivered honestly with hostile receipt contents: logs without topics, the expected event with empty / short / oversized data, foreign events). " +
 			"evaluations = blocks executed + module probes; distinct_nontrivial = distinct accepted (actor-kind, operation, hostile value) descriptions + distinct WARN/ERROR log lines reached (branch-coverage proxy)",
 		Assumptions: []string{
 			"only states reached through accepted transactions and the keeper functions governance handlers call; panics inside transaction execution are recovered by baseapp and are not violations",
@@ -816,7 +824,7 @@ func init() {
 		},
 		Cases:       cases,
 		Run:         run,
-		MinCounters: []string{"blocks", "probes", "accepted:evidence", "accepted:estimate", "accepted:relayer-fee", "accepted:public-access", "height_class_%300", "height_class_%303", "purge:validators_purged", "retry:message_retried_in_endblock", "version_gate_passed_same_or_newer", "version_gate_stopped_older_software"},
+		MinCounters: []string{"blocks", "probes", "accepted:evidence", "accepted:estimate", "accepted:relayer-fee", "accepted:public-access", "height_class_%300", "height_class_%303", "purge:validators_purged", "retry:message_retried_in_endblock", "version_gate_passed_same_or_newer", "version_gate_stopped_older_software", "receipts:delivered/deploy_contract", "receipts:delivered/submit_logic_call"},
 		TimeoutS:    1500,
 	})
 }
